@@ -6,6 +6,7 @@ package main
 import (
 	"fmt"
 	"os"
+	"runtime/debug"
 
 	"verif/fw"
 	"verif/props"
@@ -39,6 +40,20 @@ func main() {
 		fw.Fatalf("unknown property %q", id)
 	}
 	c := fw.New(id, tier)
+	defer func() {
+		// A panic that escapes a check and comes out of the library is reported as a violation
+		// (the unchanged tree never gets here); anything else is a machinery error.
+		if r := recover(); r != nil {
+			stack := string(debug.Stack())
+			if site := fw.LibraryFrame(stack); site != "" {
+				c.Violation("uncaught-library-panic@"+site, map[string]string{"panic": fmt.Sprint(r), "stack": fw.Trunc(stack, 3000)})
+				c.Exhaustive = false
+				c.Finish()
+			}
+			fmt.Fprintf(os.Stderr, "%v\n%s\n", r, stack)
+			fw.Fatalf("harness panic outside the library: %v", r)
+		}
+	}()
 	if replay != "" {
 		if p.Replay == nil {
 			fw.Fatalf("property %s has no replay function", id)
